@@ -14,9 +14,9 @@ _T3 = ('Sidecar contracts (pre/postconditions, frame clauses, contracts on priva
        'within reach of the E1 generator yet (listed under unverified_functions), so everything here is a bounded stand-in, never counted as proved.')
 _TECH_E1 = 'contract-based deductive verification: own AST->VC generator + z3 (structural clauses, unbounded) + run-time contracts vs dense oracles (value clauses, bounded)'
 _TECH_T3 = 'sidecar run-time contracts vs dense oracles (bounded stand-in)'
-for _i in (1, 2, 3, 4, 5, 6, 7, 8, 9, 10, 11, 17):
+for _i in (1, 2, 3, 4, 5, 6, 7, 8, 9, 10, 11, 16, 17):
     CLAIMED['C%02d' % _i] = ('other', _TECH_E1, _E1, _NOTE)
-for _i in (12, 13, 15, 16, 18, 19):
+for _i in (12, 13, 15, 18, 19):
     CLAIMED['C%02d' % _i] = ('other', _TECH_T3, _T3, _NOTE)
 CLAIMED['C14'] = ('other', 'contracts decided by exact symbolic execution of the real methods on sympy symbols (all points and parameters, enumerated families) + complex-step run-time checks',
                   'The real __call__/partial/partial2/gradient/hessian methods are executed on sympy symbols with symbolic parameters (module names np/legendre rebound to contract shims); simplify(partial - diff(call)) == 0 is exact in the evaluation point and the parameters for every enumerated family/index/dimension/degree; B-splines and vectorised evaluation are run-time checks (bounded).', _NOTE)
